@@ -708,10 +708,16 @@ def _loop_to_generators(loop: ast.For, acc: str):
         c = cur.value
         if c.func.attr == "append" and len(c.args) == 1 and not c.keywords:
             elt = ("list", c.args[0])
+        elif c.func.attr == "extend" and len(c.args) == 1 and not c.keywords and not isinstance(c.args[0], (ast.List, ast.Tuple)):
+            gens.append([ast.Name(id="_e_", ctx=ast.Store()), c.args[0], []])
+            elt = ("list", ast.Name(id="_e_", ctx=ast.Load()))
         elif c.func.attr == "update" and len(c.args) == 1 and isinstance(c.args[0], ast.Dict) and len(c.args[0].keys) == 1 and c.args[0].keys[0] is not None:
             elt = ("dict", c.args[0].keys[0], c.args[0].values[0])
     elif isinstance(cur, ast.AugAssign) and isinstance(cur.op, ast.Add) and isinstance(cur.target, ast.Name) and cur.target.id == acc and isinstance(cur.value, ast.List) and len(cur.value.elts) == 1:
         elt = ("list", cur.value.elts[0])
+    elif isinstance(cur, ast.AugAssign) and isinstance(cur.op, ast.Add) and isinstance(cur.target, ast.Name) and cur.target.id == acc and not isinstance(cur.value, (ast.List, ast.Tuple)):
+        gens.append([ast.Name(id="_e_", ctx=ast.Store()), cur.value, []])
+        elt = ("list", ast.Name(id="_e_", ctx=ast.Load()))
     elif isinstance(cur, ast.Assign) and len(cur.targets) == 1 and isinstance(cur.targets[0], ast.Subscript) and isinstance(cur.targets[0].value, ast.Name) and cur.targets[0].value.id == acc:
         elt = ("dict", cur.targets[0].slice, cur.value)
     if elt is None:
@@ -1073,7 +1079,7 @@ class _ExprCanon(ast.NodeTransformer):
             if isinstance(a, ast.Call) and isinstance(a.func, ast.Attribute) and a.func.attr == "keys" and not a.args:
                 n.args = [a.func.value]
             if isinstance(a, (ast.List, ast.ListComp)) or (isinstance(a, ast.Call) and isinstance(a.func, ast.Name) and a.func.id in LIST_MAKERS):
-                pass  # list(list(x)) is a copy of a fresh list: same value
+                return a  # list(<fresh list>) is a copy of a fresh list: same value
         if isinstance(n.func, ast.Name) and n.func.id in ("sorted", "set", "list", "tuple", "sum", "max", "min", "any", "all") and len(n.args) >= 1:
             a = n.args[0]
             if isinstance(a, ast.Call) and isinstance(a.func, ast.Name) and a.func.id == "list" and len(a.args) == 1 and not a.keywords and n.func.id != "list":
@@ -1388,6 +1394,9 @@ def inline_temporaries(fn):
                 for n in _walk_no_nested(fn):
                     if isinstance(n, ast.Call) and isinstance(n.func, ast.Attribute) and isinstance(n.func.value, ast.Name) and n.func.value.id == v and n.func.attr in MUTATORS and n.func.attr not in PANDAS_PURE:
                         mutated = True
+                    if (isinstance(n, ast.Call) and isinstance(n.func, ast.Attribute) and isinstance(n.func.value, ast.Name) and n.func.value.id == v
+                            and n.func.attr in _REPO_FUNCS and n.func.attr not in _PURE_FUNCS and n.func.attr not in _LIB_PURE_METHODS):
+                        mutated = True  # a method of a repository class that may change its receiver (fit, group ...)
                     if isinstance(n, (ast.Subscript, ast.Attribute)) and isinstance(n.ctx, (ast.Store, ast.Del)):
                         base = n
                         while isinstance(base, (ast.Attribute, ast.Subscript)):
@@ -1423,7 +1432,7 @@ def inline_temporaries(fn):
                                 ok = False
                         if isinstance(p, (ast.Return, ast.Assign)) and getattr(p, "value", None) is u:
                             ok = False  # escapes under another name
-                        if isinstance(p, (ast.List, ast.Tuple, ast.Dict, ast.Set)):
+                        if isinstance(p, (ast.List, ast.Tuple, ast.Dict, ast.Set)) and not getattr(p, "_acsa_msg", False):
                             ok = False
                     if not ok:
                         continue
@@ -1573,6 +1582,18 @@ def split_variables(fn):
         defs.sort(key=lambda d: d[0])
         if len({d[0] for d in defs}) != len(defs):
             continue
+        # union-find over the bindings: two bindings that may reach a common use stay one variable
+        parent = list(range(len(defs)))
+
+        def find(i):
+            while parent[i] != i:
+                parent[i] = parent[parent[i]]
+                i = parent[i]
+            return i
+
+        def union(i, j):
+            parent[find(i)] = find(j)
+
         assign: Dict[int, int] = {}
         for u in loads.get(v, []):
             us = stmt_of.get(id(u))
@@ -1600,29 +1621,30 @@ def split_variables(fn):
                 if k == best:
                     continue
                 p2 = d2[0]
-                contains = any(a in d2[1] for a in anc) and not in_header(d2)
-                if d[0] < p2 < upos and not contains:
-                    ok = False  # a conditional / loop-local redefinition in between may or may not have run
-                if d[0] < p2 < upos and contains:
-                    ok = False  # should have been chosen
+                if d[0] < p2 < upos:
+                    union(k, best)  # a conditional / loop-local redefinition in between may or may not have run
                 if p2 >= upos and d2[4] is not None:
                     loops2 = [a for a in chain[id(d2[4])] if isinstance(a, (ast.For, ast.While))] + ([d2[3]] if d2[3] is not None else [])
                     for L in loops2:
                         if L in anc and L not in d_loops:
-                            ok = False  # reaches the use through the loop's back edge
-            if not ok:
-                break
+                            union(k, best)  # reaches the use through the loop's back edge
             assign[id(u)] = best
         if not ok:
             continue
+        classes = sorted({find(k) for k in range(len(defs))})
+        if len(classes) < 2:
+            continue
+        # the class of the first binding (the parameter, if any) keeps the name
+        keep = find(0)
+        label = {c: (None if c == keep else f"{v}__s{n}") for n, c in enumerate(classes)}
         for k, d in enumerate(defs):
-            if k == 0 or d[2] is None:
-                continue
-            d[2].id = f"{v}__s{k}"
+            nm = label[find(k)]
+            if nm is not None and d[2] is not None:
+                d[2].id = nm
         for u in loads.get(v, []):
-            k = assign[id(u)]
-            if k and defs[k][2] is not None:
-                u.id = f"{v}__s{k}"
+            nm = label[find(assign[id(u)])]
+            if nm is not None:
+                u.id = nm
     return fn
 
 
